@@ -84,7 +84,7 @@ def c02(tier):
 
 
 def c03(tier):
-    family = fam(['stamped1plain', 'stamped1always', 'stamped2plain', 'stamped_nested', 'stamp_toggle', 'stamped_deep', 'stamp_diamond', 'stamp_chain2', 'stamp_override'])
+    family = fam(['stamped1plain', 'stamped1always', 'stamped2plain', 'stamped_nested', 'stamp_toggle', 'stamped_deep', 'stamp_diamond', 'stamp_chain2', 'stamp_override', 'stamp_static'])
     v, cov, te, wall = syscheck.run_family(
         'C03', tier, family, ['Fresh', 'NoUnderBuild', 'NoDupRun'], ['NoOverBuild'],
         {'rc', 'ran', 'file', 'row.csum', 'row.changed', 'row.checked'},
